@@ -35,3 +35,261 @@ pub fn confirm_pad(w: &Value) -> Value {
     let r0 = on_big_stack(move || MainEvent::try_from_banks(run, [(name0.as_str(), &data0[..])]).map(|_| ()).map_err(|e| e.to_string()));
     json!({"contradicts": r.is_err(), "real": format!("sample {v}: {:?}", r), "spec": format!("returns Ok or a typed Err (same bank with sample 0: {:?})", r0)})
 }
+
+// ------------------------------------------------------------------------------------------ C13: symmetry through the public API
+use crate::evt::{keys, Event};
+
+fn avalanche_keys(e: Event, k: usize) -> Result<Vec<crate::evt::Key>, String> {
+    on_big_stack(move || keys(&e.main_event().avalanches(), k))
+}
+fn rotation_mismatch(e: &Event, ks: &[usize]) -> Result<Option<(usize, usize, usize)>, String> {
+    let reference = avalanche_keys(e.clone(), 0)?;
+    for &k in ks {
+        let rotated = avalanche_keys(e.rotated(k), k)?;
+        if rotated != reference { return Ok(Some((k, reference.len(), rotated.len()))); }
+    }
+    Ok(None)
+}
+fn seam_event() -> Event {
+    let mut event = Event::with_wires((252..256).chain(0..4));
+    event.add_wire_avalanche(255, 20, 40.0);
+    event.add_pad_cluster(30, 100, 20, [400.0, 900.0, 500.0]);
+    event.add_wire_avalanche(0, 35, 25.0);
+    event.add_pad_cluster(31, 400, 35, [300.0, 700.0, 450.0]);
+    event
+}
+fn full_ring_event() -> Event {
+    let mut event = Event::with_wires(0..256);
+    event.add_wire_avalanche(255, 20, 40.0);
+    event.add_pad_cluster(30, 100, 20, [400.0, 900.0, 500.0]);
+    event.add_wire_avalanche(0, 35, 25.0);
+    event.add_pad_cluster(31, 400, 35, [300.0, 700.0, 450.0]);
+    event
+}
+/// known finding C13.seam_coupling_full_ring, replayed on the real library
+pub fn confirm_full_ring(_w: &Value) -> Value {
+    match rotation_mismatch(&full_ring_event(), &[1, 5]) {
+        Err(p) => json!({"contradicts": true, "real": format!("panic: {p}"), "spec": "avalanches invariant under rotation by whole pad columns"}),
+        Ok(Some((k, a, b))) => json!({"contradicts": true, "real": format!("all 256 wires occupied, avalanches on wires 255 and 0: rotating by {k} pad column(s) changes the avalanche list ({a} vs {b} entries / amplitudes differ)"),
+                                     "spec": "avalanches invariant under rotation by whole pad columns"}),
+        Ok(None) => json!({"contradicts": false, "real": "rotations of the full-ring event give identical avalanches", "spec": "invariant"}),
+    }
+}
+/// bounded: rotation by every whole number of pad columns and the z mirror on a few occupancy patterns (not the full ring)
+pub fn c13_sym(tier: &str) -> Value {
+    let mut cases = 0u64;
+    let target = "MainEvent::avalanches under rotation / mirror (numeric layer, assumption A-NUMERIC-LOCAL)";
+    let bound = "5 occupancy patterns x rotations by 1..31 pad columns (quick: 1, 7, 31) + z mirror";
+    let ks: Vec<usize> = if tier == "thorough" { (1..32).collect() } else { vec![1, 7, 31] };
+    let mut patterns: Vec<(&str, Event)> = vec![("block straddling the 255/0 seam", seam_event())];
+    {
+        let mut e = Event::with_wires(40..60);
+        e.add_wire_avalanche(47, 10, 30.0); e.add_pad_cluster(4, 200, 10, [300.0, 800.0, 400.0]);
+        e.add_wire_avalanche(48, 12, 35.0); e.add_pad_cluster(5, 1, 12, [350.0, 900.0, 300.0]);
+        patterns.push(("interior block across a pad-column boundary, cluster on the lowest pad rows", e));
+    }
+    {
+        let mut e = Event::with_wires((0..12).chain(100..110).chain(250..256));
+        e.add_wire_avalanche(3, 15, 50.0); e.add_pad_cluster(31, 300, 15, [200.0, 600.0, 250.0]);
+        e.add_wire_avalanche(104, 25, 20.0); e.add_pad_cluster(12, 574, 25, [300.0, 700.0, 450.0]);
+        patterns.push(("three blocks, one wrapping; cluster on the highest pad rows", e));
+    }
+    {
+        let mut e = Event::with_wires(8..16);
+        e.add_wire_avalanche(8, 5, 60.0); e.add_pad_cluster(0, 288, 5, [500.0, 1000.0, 500.0]);
+        patterns.push(("exactly one pad column of wires", e));
+    }
+    for (name, e) in &patterns {
+        cases += ks.len() as u64 + 1;
+        match rotation_mismatch(e, &ks) {
+            Err(p) => return json!({"status": "failed", "target": target, "bound": bound, "cases": cases, "distinct": cases, "reason": format!("{name}: panic {p}"), "witness": null}),
+            Ok(Some((k, _, _))) => return json!({"status": "failed", "target": target, "bound": bound, "cases": cases, "distinct": cases,
+                "reason": format!("{name}: avalanches change under rotation by {k} pad column(s)"), "witness": null}),
+            Ok(None) => {}
+        }
+        // mirror: same wires, times, amplitudes; z negated
+        let a = match avalanche_keys(e.clone(), 0) { Ok(a) => a, Err(p) => return json!({"status": "failed", "target": target, "bound": bound, "cases": cases, "distinct": cases, "reason": p, "witness": null}) };
+        let m = match on_big_stack({ let e = e.mirrored(); move || e.main_event().avalanches() }) { Ok(m) => m, Err(p) => return json!({"status": "failed", "target": target, "bound": bound, "cases": cases, "distinct": cases, "reason": p, "witness": null}) };
+        use uom::si::length::meter;
+        let mut zs: Vec<(u64, i64)> = m.iter().map(|x| (x.wire_amplitude.to_bits(), (-x.z.get::<meter>() * 1e9).round() as i64)).collect();
+        let mut za: Vec<(u64, i64)> = a.iter().map(|k| (k.3, (f64::from_bits(k.2) * 1e9).round() as i64)).collect();
+        zs.sort(); za.sort();
+        if zs != za {
+            return json!({"status": "failed", "target": target, "bound": bound, "cases": cases, "distinct": cases,
+                "reason": format!("{name}: mirrored event gives {} avalanches / different z, original {}", m.len(), a.len()), "witness": null});
+        }
+    }
+    json!({"status": "bounded-ok", "target": target, "bound": bound, "cases": cases, "distinct": cases})
+}
+
+// ------------------------------------------------------------------------------------------ C09 / C10: bounded event-level tables
+use alpha_g_detector::{alpha16, padwing};
+
+const SIM: u32 = u32::MAX;
+fn trg(ts: u32) -> Vec<u8> {
+    let mut b = vec![0u8; 80];
+    b[4..8].copy_from_slice(&0x8000_0000u32.to_le_bytes());
+    b[8..12].copy_from_slice(&ts.to_le_bytes());
+    b[76..80].copy_from_slice(&0xE000_0000u32.to_le_bytes());
+    b
+}
+/// non-suppressed ADC32 packet carrying exactly `raw` (>= 64 samples), footer baseline = floor mean of the first 64
+fn adc_raw(board: alpha16::BoardId, channel_byte: u8, raw: &[i16]) -> Vec<u8> {
+    let mut b = vec![1, 3, 0, 0, 0, channel_byte];
+    b.extend(((raw.len() + 2) as u16).to_be_bytes());
+    b.extend([0; 4]); b.extend([0; 2]); b.extend(board.mac_address()); b.extend([0; 12]);
+    for s in raw { b.extend(s.to_be_bytes()); }
+    b.extend(0u16.to_be_bytes());
+    let sum: i64 = raw.iter().take(64).map(|&x| x as i64).sum();
+    b.extend((sum.div_euclid(64) as i16).to_be_bytes());
+    b
+}
+fn pwb_payload(board: padwing::BoardId, after: u8, n: usize, channels: &[(u16, Vec<i16>)]) -> Vec<u8> {
+    let mut p = vec![2, b'A' + after, 0, 0];
+    p.extend(board.mac_address()); p.extend([0; 12]);
+    p.extend((n as u16).to_le_bytes());
+    let mut bm = 0u128;
+    for (i, _) in channels { bm |= 1 << (i - 1); }
+    p.extend(&bm.to_le_bytes()[..10]); p.extend(&bm.to_le_bytes()[..10]); p.extend([0; 8]);
+    for (i, w) in channels {
+        p.extend(i.to_le_bytes()); p.extend((n as u16).to_le_bytes());
+        for k in 0..n { p.extend(w.get(k).copied().unwrap_or(1725).to_le_bytes()); }
+        if n % 2 == 1 { p.extend([0, 0]); }
+    }
+    p.extend([0xCC; 4]);
+    p
+}
+fn pwb_chunks(board: padwing::BoardId, after: u8, payload: &[u8], pieces: usize) -> Vec<Vec<u8>> {
+    let step = ((payload.len() / pieces) / 4 * 4).max(4);
+    let mut out = Vec::new();
+    let mut at = 0;
+    let mut id = 0u16;
+    while at < payload.len() {
+        let end = if out.len() + 1 == pieces { payload.len() } else { (at + step).min(payload.len()) };
+        out.push(make_chunk(board.device_id(), after, (end == payload.len()) as u8, id, &payload[at..end]));
+        at = end; id += 1;
+    }
+    out
+}
+fn wire_of(board: &str, ch: u8) -> (alpha16::BoardId, u8) { (alpha16::BoardId::try_from(board).unwrap(), ch) }
+fn wire_name(board: &str, ch: u8) -> String { format!("C{board}{}", char::from_digit(ch as u32, 32).unwrap().to_ascii_uppercase()) }
+
+type Banks = Vec<(String, Vec<u8>)>;
+fn run_event(banks: Banks, full: bool) -> Result<Result<u32, String>, String> {
+    on_big_stack(move || {
+        match MainEvent::try_from_banks(SIM, banks.iter().map(|(n, d)| (&n[..], &d[..]))) {
+            Err(e) => Err(e.to_string()),
+            Ok(ev) => { let t = ev.timestamp(); if full { let _ = ev.avalanches(); let _ = ev.vertex(); } Ok(t) }
+        }
+    })
+}
+/// C09 (bounded): extreme but representable CRC-valid packets never make assembling / reconstructing panic
+pub fn c09_event(tier: &str) -> Value {
+    let target = "MainEvent::try_from_banks + timestamp + avalanches + vertex";
+    let bound = "wire waveforms of 64..700 samples and pad packets of 0..511 samples around the calibration delay, sample values in {0, baseline, +-2047, i16::MIN, i16::MAX}; isolated, neighbouring and full-ring occupancy";
+    let mut cases = 0u64;
+    let pb = padwing::BoardId::try_from("12").unwrap();
+    let vals: [i16; 6] = [0, 3000, 2047, -2048, i16::MIN, i16::MAX];
+    let wire_lens: Vec<usize> = if tier == "thorough" { (64..=140).chain([164, 300, 699, 700]).collect() } else { vec![64, 65, 99, 100, 101, 102, 103, 110, 116, 117, 118, 130, 700] };
+    let pad_lens: Vec<usize> = if tier == "thorough" { (0..=130).chain([200, 410, 510, 511]).collect() } else { vec![0, 1, 2, 99, 100, 101, 102, 103, 110, 116, 117, 118, 130, 511] };
+    let fail = |reason: String, cases: u64, banks: &Banks| json!({"status": "failed", "target": target, "bound": bound, "cases": cases, "distinct": cases, "reason": reason,
+        "witness": {"op": "event", "banks": banks.iter().map(|(n, d)| json!([n, to_hex(d)])).collect::<Vec<_>>()}});
+    for &n in &wire_lens {
+        for &v in &vals {
+            for spike in [false, true] {
+                let mut raw = vec![3000i16; n];
+                if spike { let k = n - 1; raw[k] = v; raw[n / 2] = v; } else { for x in raw.iter_mut().skip(64) { *x = v; } }
+                // an isolated wire, and the same wire with a neighbour of normal length
+                for neighbour in [false, true] {
+                    let (b, ch) = wire_of("09", 0);
+                    let mut banks: Banks = vec![("ATAT".into(), trg(7)), (wire_name("09", ch), adc_raw(b, 128 + ch, &raw))];
+                    if neighbour { let (b2, c2) = wire_of("09", 1); banks.push((wire_name("09", c2), adc_raw(b2, 128 + c2, &vec![3000i16; 700]))); }
+                    cases += 1;
+                    match run_event(banks.clone(), true) { Err(p) => return fail(format!("panic: {p} (wire waveform of {n} samples, value {v})"), cases, &banks), Ok(_) => {} }
+                }
+            }
+        }
+    }
+    for &n in &pad_lens {
+        for &v in &vals {
+            let w: Vec<i16> = (0..n).map(|k| if k % 7 == 3 || k + 1 == n { v } else { 1725 }).collect();
+            for with_wires in [false, true] {
+                let payload = pwb_payload(pb, 0, n, &[(4, w.clone()), (5, vec![1725; n])]);
+                let mut banks: Banks = vec![("ATAT".into(), trg(9))];
+                for c in pwb_chunks(pb, 0, &payload, 1) { banks.push(("PC12".into(), c)); }
+                if with_wires {
+                    for name in ["09", "10", "11", "12", "13", "14", "16", "18"] { for ch in 0..32u8 {
+                        let (b, c) = wire_of(name, ch);
+                        let mut raw = vec![3000i16; 300]; raw[150] = 3400; raw[151] = 3300;
+                        banks.push((wire_name(name, c), adc_raw(b, 128 + c, &raw)));
+                    } }
+                }
+                cases += 1;
+                match run_event(banks.clone(), true) { Err(p) => return fail(format!("panic: {p} (pad packet of {n} samples, value {v}, wires: {with_wires})"), cases, &banks), Ok(_) => {} }
+                if with_wires && tier != "thorough" && n > 2 && n != 511 { break; }
+            }
+        }
+    }
+    json!({"status": "bounded-ok", "target": target, "bound": bound, "cases": cases, "distinct": cases})
+}
+
+/// C10 (bounded decision table): every rejection clause of the statement, and the accepted cases next to them
+pub fn c10_table(_tier: &str) -> Value {
+    let target = "MainEvent::try_from_banks: rejection clauses and timestamp";
+    let bound = "one representative per rejection clause of the property statement, with its accepted neighbour; multi-chunk pad packets misnamed at each position";
+    let pb = padwing::BoardId::try_from("12").unwrap();
+    let good_wire = |name: &str, ch: u8| { let (b, c) = wire_of(name, ch); (wire_name(name, c), adc_raw(b, 128 + c, &vec![3000i16; 300])) };
+    let payload = pwb_payload(pb, 1, 150, &[(4, vec![1725; 150]), (30, vec![1700; 150])]);
+    let mut table: Vec<(&str, Banks, bool)> = Vec::new();   // (what, banks, expect Ok)
+    let t = || ("ATAT".to_string(), trg(0x0102_0304));
+    table.push(("plain event", vec![t(), good_wire("09", 3), good_wire("10", 31)], true));
+    table.push(("missing TRG bank", vec![good_wire("09", 3)], false));
+    table.push(("duplicate TRG bank", vec![t(), t()], false));
+    table.push(("unknown bank name", vec![t(), ("XXXX".into(), vec![1, 2, 3])], false));
+    table.push(("lower-case bank name", vec![t(), ("c093".into(), good_wire("09", 3).1)], false));
+    table.push(("duplicate wire bank", vec![t(), good_wire("09", 3), good_wire("09", 3)], false));
+    table.push(("wire bank name / payload board mismatch", vec![t(), (wire_name("10", 3), good_wire("09", 3).1)], false));
+    table.push(("wire bank name / payload channel mismatch", vec![t(), (wire_name("09", 4), good_wire("09", 3).1)], false));
+    { let (b, _) = wire_of("09", 0); table.push(("wire bank holding a barrel-veto (ADC16) channel", vec![t(), ("C093".into(), adc_raw(b, 3, &vec![3000i16; 300]))], false)); }
+    table.push(("malformed wire payload", vec![t(), ("C093".into(), vec![1, 3, 0, 0])], false));
+    table.push(("malformed TRG payload", vec![("ATAT".into(), vec![0u8; 79])], false));
+    { let (b, _) = wire_of("09", 0); table.push(("barrel-veto bank is ignored", vec![t(), ("B093".into(), adc_raw(b, 3, &vec![100i16; 300]))], true)); }
+    table.push(("TRB3 / MC vertex banks are ignored", vec![t(), ("TRBA".into(), vec![9; 11]), ("MCVX".into(), vec![1; 5])], true));
+    for pieces in 1..=3usize {
+        let chunks = pwb_chunks(pb, 1, &payload, pieces);
+        let n = chunks.len();
+        let mut ok: Banks = vec![t()];
+        for c in &chunks { ok.push(("PC12".into(), c.clone())); }
+        table.push(("pad packet, correctly named", ok.clone(), true));
+        for bad in 0..n {
+            let mut b: Banks = vec![t()];
+            for (i, c) in chunks.iter().enumerate() { b.push(((if i == bad { "PC13" } else { "PC12" }).into(), c.clone())); }
+            table.push(("pad bank misnamed at one chunk position", b, false));
+        }
+        let mut dup = ok.clone(); dup.push(("PC12".into(), chunks[0].clone()));
+        table.push(("pad chunk duplicated", dup, false));
+        if n > 1 { let mut miss: Banks = vec![t()]; for c in &chunks[1..] { miss.push(("PC12".into(), c.clone())); } table.push(("pad chunk missing", miss, false)); }
+    }
+    { let mut c = pwb_chunks(pb, 1, &payload, 1)[0].clone(); let k = c.len() - 9; c[k] ^= 1; table.push(("pad chunk with a flipped payload bit", vec![t(), ("PC12".into(), c)], false)); }
+    let mut cases = 0u64;
+    for (what, banks, expect_ok) in &table {
+        cases += 1;
+        let r = run_event(banks.clone(), false);
+        let w = json!({"op": "event", "banks": banks.iter().map(|(n, d)| json!([n, to_hex(d)])).collect::<Vec<_>>(), "expect_ok": expect_ok});
+        let bad = match &r {
+            Err(p) => Some(format!("{what}: panic {p}")),
+            Ok(Ok(ts)) => if !*expect_ok { Some(format!("{what}: accepted, must be rejected")) } else if *ts != 0x0102_0304 { Some(format!("{what}: timestamp {ts:#x} is not the TRG timestamp")) } else { None },
+            Ok(Err(e)) => if *expect_ok { Some(format!("{what}: rejected ({e}), must be accepted")) } else { None },
+        };
+        if let Some(reason) = bad { return json!({"status": "failed", "target": target, "bound": bound, "cases": cases, "distinct": cases, "reason": reason, "witness": w}); }
+    }
+    json!({"status": "bounded-ok", "target": target, "bound": bound, "cases": cases, "distinct": cases})
+}
+pub fn confirm_event(w: &Value) -> Value {
+    let banks: Banks = w["banks"].as_array().map(|a| a.iter().map(|p| (p[0].as_str().unwrap_or("").to_string(), crate::ops::hex(p[1].as_str().unwrap_or("")))).collect()).unwrap_or_default();
+    let expect_ok = w.get("expect_ok").and_then(|x| x.as_bool());
+    match run_event(banks, true) {
+        Err(p) => json!({"contradicts": true, "real": format!("panic: {p}"), "spec": "an event or a typed error; reconstruction returns normally"}),
+        Ok(r) => json!({"contradicts": expect_ok.map(|e| e != r.is_ok()).unwrap_or(false), "real": format!("{r:?}"), "spec": format!("expected accepted: {expect_ok:?}")}),
+    }
+}
